@@ -14,6 +14,7 @@ OPTION_FRAGMENTS = [
     {"z": ".bak"}, {"B": "pre."}, {"B": "bk/"}, {"rf": "context"}, {"rf": "unified"}, {"nl": "keep"}, {"nl": "lf"}, {"nl": "crlf"},
     {"ro": "ignore"}, {"ro": "fail"}, {"ro": "warn"}, {"E": 1}, {"v": 1}, {"D": "SYM"}, {"dry": 1}, {"dry": 1},
     {"o": "outfile"}, {"o": "osub/outfile"}, {"o": "-"}, {"r": "rejects.txt"}, {"r": "rsub/rejects.txt"},
+    {"N": 1, "t": 1}, {"t": 1, "f": 1}, {"b": 1, "dry": 1}, {"F": 0, "l": 1}, {"rf": "unified", "f": 1}, {"ro": "fail", "dry": 1},
 ]
 
 TARGET_STATES = ["asis", "asis", "asis", "asis", "drift", "drift", "applied", "missing", "empty", "dir", "fifo", "link", "dangling",
@@ -29,7 +30,19 @@ def symlink_section(path, target):
 
 def wide_scenario(rng):
     nsec = rng.choice([1, 1, 1, 2, 2, 3])
-    paths = rng.sample(scen.PATHS, nsec)
+    paths = rng.sample(scen.PATHS + ["d\xc3\xa9j\xc3\xa0/vu.txt", "q\xe9"], nsec)
+    if rng.random() < 0.12:
+        # several sections for one file in one stream (a series)
+        s = scen.same_file_scenario(rng, opts={}, git=rng.random() < 0.5)
+        o = s["opts"]
+        for _ in range(rng.choice([0, 1, 2])):
+            o.update(rng.choice(OPTION_FRAGMENTS))
+        if o.get("o") == "-" or o.get("D"):
+            o.pop("o", None)
+        s["umask"] = rng.choice([0o022, 0o077])
+        for x in s["secs"]:
+            x["state"] = "series"
+        return s
     git = rng.random() < 0.35
     secs = []
     for p in paths:
